@@ -296,7 +296,7 @@ def run(ctx):
     ctx.cov['replay']['laziness (run primitives that log)'] = dict(cases=len(lz), disagreements=bad)
     if not lz:
         raise core.MachineryFailure('no laziness cases')
-    lz2 = lazy_lines_cases(trees, rnd, 600 if quick else 20000)
+    lz2 = lazy_lines_cases(trees, rnd, 600 if quick else 5000)
     if len(lz2) < 200:
         raise core.MachineryFailure('only %d laziness cases over several lines' % len(lz2))
     with ctx.pool() as pool:
